@@ -32,8 +32,16 @@ def _unwrap_hooked(it):
     return None
 
 
+class LazyLike(types.ModuleType):
+    """stands for importlib.util.LazyLoader's module type: ANY attribute access (its __dict__ included) makes it load"""
+
+    def __getattribute__(self, attr):
+        types.ModuleType.__getattribute__(self, "__dict__").setdefault("_touched_", []).append(attr)
+        return types.ModuleType.__getattribute__(self, attr)
+
+
 def make_module(name, kind, log, on_import=None):
-    m = types.ModuleType(name)
+    m = LazyLike(name) if kind == "lazy" else types.ModuleType(name)
     if kind in ("mod", "both", "raise", "importer", "bothraise", "bothpresent"):
         def glue(name=name, kind=kind, m=m):
             log.append((name, "module", id(m)))
@@ -59,6 +67,7 @@ def run_history(req):
     gen = [0, 0, 0, 0]
     used = []
     log = []
+    blocked_bi = set()   # names with built-in glue declared whose sys.modules entry is None
     present = {}      # slot -> (name, module or None, kind)
     removed = {}      # slot -> (name, module, kind)
     unrun_mod = set()  # model: ids of module objects whose own glue has not run yet
@@ -115,6 +124,20 @@ def run_history(req):
                 sys.modules[name] = m
                 present[slot] = (name, m, kind)
                 stats["adds"] += 1
+                if kind == "biraisepresent":
+                    # ... and that glue fails: declaring it (which is what `import stackscope` does) must not raise
+                    with warnings.catch_warnings(record=True) as wdecl:
+                        warnings.simplefilter("always")
+                        try:
+                            register_builtin(name, "biraise", log)
+                        except BaseException as ex:
+                            obs.append({"kind": "declaring_builtin_glue_for_a_present_module_raised", "exc": repr(ex)})
+                    if (name, "builtin", 0) in log:
+                        if not any("Failed to initialize" in str(x.message) for x in wdecl):
+                            obs.append({"kind": "warnings_for_failing_glue", "warnings": 0, "failing_glue_runs": 1, "at": "declaration"})
+                    else:
+                        bi_pending.add(name)
+                        present[slot] = (name, m, "biraise")
                 if kind in ("bipresent", "bothpresent"):
                     # The module is ALREADY in sys.modules when the built-in glue for it is declared (what happens at
                     # `import stackscope` for every module imported before it).  Without glue of its own the built-in
@@ -265,6 +288,12 @@ def run_history(req):
                 other = [str(x.message)[:100] for x in w if "Failed to initialize" not in str(x.message)]
                 if other:
                     obs.append({"kind": "unexpected_warning", "msgs": other})
+        # a lazily loading module is not made to load by an extraction
+        for slot, (name, m, kind) in list(present.items()) + list(removed.items()):
+            if kind == "lazy" and m is not None:
+                touched = types.ModuleType.__getattribute__(m, "__dict__").get("_touched_")
+                if touched:
+                    obs.append({"kind": "lazy_module_made_to_load", "name": name, "attributes_read": touched[:4]})
         # over the whole history: no glue function ran twice; never both kinds for one module
         seen = {}
         for key in log:
